@@ -43,8 +43,9 @@ DEVIATION = {
     ("must-not-and-matched-on-some-terms", "unindexed"): "FlatAndIsOr",
     ("phrase-missed", "unindexed"): "PhraseSkipsUnindexed",
     ("must-not-phrase-missed", "unindexed"): "PhraseSkipsUnindexed",
-    ("missed-beside-repeated-term", "unindexed"): "FlatScorerCountsOccurrences",
-    ("must-not-missed-beside-repeated-term", "unindexed"): "FlatScorerCountsOccurrences",
+    ("missed-beside-repeated-term", "unindexed"): "FlatDropsNonPositiveScores",
+    ("must-not-missed-beside-repeated-term", "unindexed"): "FlatDropsNonPositiveScores",
+    ("missed-beside-empty-documents", "unindexed"): "FlatDropsNonPositiveScores",
     ("purged-row-in-index", ""): "PurgedRowsStayInIndex",
 }
 REQUIRED = ["match-or", "match-and", "phrase", "bool", "limit", "upper", "with_deleted", "with_unindexed", "unindexed_match",
@@ -74,6 +75,16 @@ def _pinned():
         {"op": "query", "q": m([1, 2], "and"), "variants": v0},
         {"op": "query", "q": ["phrase", [1, 2]], "variants": v0},
         {"op": "query", "q": m([2], "or"), "variants": v0}]})
+    # rows appended after indexing must be found: no empty documents and no repeated tokens anywhere, so none of the
+    # deviations above applies and a miss here is a new violation
+    out.append({"id": 9005, "stable": False, "steps": [
+        {"op": "create", "rows": [[1, [1, 2]], [2, [2, 3]], [3, [3]]], "max_rows_per_file": 1 << 20}, {"op": "index", "with_position": True},
+        {"op": "append", "rows": [[4, [1, 3]], [5, [2]]], "max_rows_per_file": 1 << 20},
+        {"op": "query", "q": m([1], "or"), "variants": v0}, {"op": "query", "q": m([2, 3], "or"), "variants": v0},
+        {"op": "query", "q": m([1, 3], "and"), "variants": v0},
+        {"op": "query", "q": ["bool", [], [m([1], "or"), m([2], "or")], [m([3], "or")]], "variants": v0},
+        {"op": "delete", "keys": [4]},
+        {"op": "query", "q": m([1], "or"), "variants": v0}, {"op": "query", "q": m([2], "or"), "variants": v0}]})
     # PurgedRowsStayInIndex: stable row ids, delete + compaction after indexing
     for i, stable in enumerate((True, False)):
         out.append({"id": 9003 + i, "stable": stable, "steps": [
